@@ -1,0 +1,23 @@
+// SPDX-FileCopyrightText: 2026 The Pion community <https://pion.ly>
+// SPDX-License-Identifier: MIT
+
+//go:build verif
+
+package fragmentbuffer
+
+// VerifStats reports the buffer's accounting and contents summary (build tag verif).
+func (f *FragmentBuffer) VerifStats() (size, count, messages int, current uint16) {
+	return f.totalBufferSize, f.totalFragmentCount, len(f.cache), f.currentMessageSequenceNumber
+}
+
+// VerifFragments lists (message_seq, offset, length) of every buffered fragment.
+func (f *FragmentBuffer) VerifFragments() [][3]uint32 {
+	out := [][3]uint32{}
+	for seq, frags := range f.cache {
+		for off, frag := range frags.fragmentByOffset {
+			out = append(out, [3]uint32{uint32(seq), off, uint32(len(frag.data))}) //nolint:gosec // G115
+		}
+	}
+
+	return out
+}
